@@ -12,6 +12,7 @@
  *       and including mine; Inv is preserved by my own steps (guarantee).
  */
 #include "verif.h"
+#define VERIF_RG_POST_STEP   /* the environment also acts between my atomic operation and my next access */
 #include "verif_rg.h"
 #include "parsec/parsec_internal.h"
 
